@@ -458,6 +458,40 @@ def patchBoth (base : J) (ld rd : List Op) : Except Err J := do
   let l ← patch base ld
   patch l rd
 
+/-- the entry of a mapping diff under key `k` -/
+def entryAt (k : String) (d : List Op) : Option Op := d.find? (fun e => e.skey == k)
+
+/-- the remote entries still to apply after the local diff: the one under `k`, and those under keys the local diff
+    does not touch -/
+def mixedRest (k : String) (ld rd : List Op) : List Op :=
+  rd.filter (fun e => e.skey == k || !(ld.map Op.skey).contains e.skey)
+
+/-- the local diff, then the remaining remote entries -/
+def patchBothMixed (base : J) (k : String) (ld rd : List Op) : Except Err J := do
+  let l ← patch base ld
+  patch l (mixedRest k ld rd)
+
+/-- the list under root key `k` and the two patch-only diffs for it -/
+def mixedParts (base : J) (k : String) (ld rd : List Op) : Option (List (String × J) × List J × List Op × List Op) :=
+  match base with
+  | .obj kvs =>
+      match lookupKV k kvs, entryAt k ld, entryAt k rd with
+      | some (.arr xs), some (.patchK _ dL), some (.patchK _ dR) => some (kvs, xs, dL, dR)
+      | _, _, _ => none
+  | _ => none
+
+/-- "the two sides patch different items of the list under root key `k` (the cells); on every other root key they touch it
+    on one side only or say the same": decidable hypothesis of `C06_model_mixed`, evaluated by the driver -/
+def mixedwise (base : J) (k : String) (ld rd : List Op) : Bool :=
+  match mixedParts base k ld rd with
+  | some (_, _, dL, dR) =>
+      base.canonical && wf base ld && wf base rd && !isIntLike k &&
+      ascPatchB 0 dL && ascPatchB 0 dR && !dL.isEmpty &&
+      dL.all (fun e0 => dR.all (fun e1 => e0.idx != e1.idx)) &&
+      !Op.pyEq (.patchK k dL) (.patchK k dR) &&
+      ld.all (fun el => rd.all (fun er => el.skey != er.skey || el.skey == k || Op.beq el er))
+  | none => false
+
 /-- `apply_decisions(base, decide_merge_with_diff(...))` -/
 def mergeApply (E : Env) (base : J) (ld rd : List Op) : Except Err J := do
   let ds ← decideMerge E base ld rd
